@@ -34,6 +34,7 @@ func init() {
 			g(rep, "CHECKSUM-COVERAGE", func() { ruleCHECKSUMCOVERAGE(p, rep) })
 			g(rep, "TRUNCATE-COVERS", func() { ruleTRUNCATECOVERS(p, rep) })
 			g(rep, "QUEUE-UNCONDITIONAL", func() { ruleQUEUEUNCONDITIONAL(p, rep) })
+			g(rep, "FLAG-MONOTONE", func() { ruleFLAGMONOTONE(p, rep) })
 		},
 	})
 	register(&propertyDef{
@@ -66,6 +67,7 @@ func init() {
 			g(rep, "WAL-RELEASE-ON-FREE", func() { ruleWALRELEASEONFREE(p, rep) })
 			g(rep, "CHECKPOINT-COMPLETE", func() { ruleCHECKPOINTCOMPLETE(p, rep) })
 			g(rep, "READ-LOCATION", func() { ruleREADLOCATION(p, rep) })
+			g(rep, "FLAG-MONOTONE", func() { ruleFLAGMONOTONE(p, rep) })
 			g(rep, "ORDER", func() { ruleORDER(p, rep, orderSet("ORDER")) })
 		},
 	})
@@ -232,6 +234,7 @@ func init() {
 			g(rep, "TOMBSTONE", func() { ruleTOMBSTONE(p, rep) })
 			g(rep, "SETBYTES-BOUND", func() { ruleSETBYTESBOUND(p, rep) })
 			g(rep, "BOUND-SOURCE", func() { ruleBOUNDSOURCE(p, rep) })
+			g(rep, "FLAG-MONOTONE", func() { ruleFLAGMONOTONE(p, rep) })
 		},
 	})
 	register(&propertyDef{
